@@ -152,6 +152,7 @@ def pipeline(ctx, res, pid, name, d0name, state_clear, slots, vals, kinds, obs, 
 
 CORE = ["change", "create", "selfdestruct", "touch_empty", "create_destroy"]
 MORE = CORE + ["increment", "drain", "load_only"]
+REINC = ["create", "selfdestruct", "change"]
 
 
 def run(ctx, pid):
@@ -165,6 +166,9 @@ def run(ctx, pid):
                  ("Y1", False, [0], [0, 1], MORE, 4, 3, 7, "{{}, {0}}")]
         if ctx.seed % 2 == 0:
             plans[0] = ("Y", True, [0], [0, 1], CORE, 3, 3, 6, "{{}, {0}}")
+        # re-incarnation: one contract destroyed and re-created repeatedly under every merge schedule (long
+        # histories are affordable with one address and three kinds; seeded change C16 needed 4 commits + 2 merges)
+        plans.append(("X1", True, [0], [0, 1], REINC, 5, 3, 8, "{{}, {0}}"))
     else:
         plans = [("X", True, [0], [0, 1], MORE, 3, 3, 6, "{{}, {0}}"),
                  ("Y", True, [0], [0, 1], MORE, 3, 3, 6, "{{}, {0}}"),
@@ -174,9 +178,10 @@ def run(ctx, pid):
                  ("X1", True, [0], [0, 1], CORE, 5, 4, 9, "{{}, {0}}"),
                  ("Y1", True, [0], [0, 1], MORE, 4, 3, 7, "{{}, {0}}"),
                  ("Y1", False, [0], [0, 1], MORE, 4, 3, 7, "{{}, {0}}"),
-                 ("X", True, [0], [0, 1], CORE + ["pair"], 2, 2, 4, "{{}, {0}}")]
+                 ("X", True, [0], [0, 1], CORE + ["pair"], 2, 2, 4, "{{}, {0}}"),
+                 ("X1", True, [0, 1], [0, 1], REINC, 5, 4, 9, "{{}, {0}, {1}}")]
     for d, sc, slots, vals, kinds, maxc, maxm, maxhist, ws in plans:
-        name = "b_%s_%s_%s_%d%s" % (pid, d, "sc" if sc else "nosc", maxc, "r" if "rich" in kinds else "")
+        name = "b_%s_%s_%s_%d%s" % (pid, d, "sc" if sc else "nosc", maxc, "r" if "rich" in kinds else "i" if kinds == REINC else "")
         if pid == "C15":
             # reads do not need merges; also through CacheDB
             pipeline(ctx, res, pid, name, d, sc, slots, vals, kinds, obs, maxc, 1, maxhist, ws)
